@@ -16,6 +16,7 @@ mod ev;
 mod gen_expr;
 mod nz;
 mod py;
+mod syn;
 mod tz;
 mod tztable;
 mod util;
@@ -51,6 +52,8 @@ fn exec_line(line: &str) -> String {
         nz::exec(op, args)
     } else if op.starts_with("tz.") {
         tz::exec(op, args)
+    } else if op.starts_with("syn.") || op.starts_with("syn4.") {
+        syn::exec(op, args)
     } else if op.starts_with("sch.") {
         c14::exec(op, args)
     } else if op.starts_with("usv.") {
@@ -95,6 +98,8 @@ fn main() {
                 "c18" => c18::gen(tier, &mut rng, &mut emit),
                 "py" => py::gen(tier, &mut rng, &mut emit),
                 "c11" => c11::gen(tier, &mut rng, &mut emit),
+                "syn" => syn::gen(tier, &mut rng, &mut emit),
+                "syn4" => syn::gen4(tier, &mut rng, &mut emit),
                 _ => {
                     eprintln!("unknown suite {suite}");
                     std::process::exit(2);
